@@ -1,5 +1,6 @@
 (* driver.ml -- reads programs (one per line) and prints the model's canonical trace (one line each).
    usage: model track | model sig [fuel]           (stdin -> stdout) *)
+exception Parse of string
 open Model
 
 let rec pos_of_int (i : int) : positive =
@@ -12,12 +13,11 @@ let rec nat_of_int (i : int) : nat = if i <= 0 then O else S (nat_of_int (i - 1)
 let b_of s = (s = "1")
 let sb b = if b then "1" else "0"
 
-exception Parse of string
 
 (* ---------------------------------------------------------------------------------------- *)
 (* trackable programs:  K <key> <n> (r|a <key>)*n ... M <ops>
    ops: new t | cc tn to | mc tn to | as td ts | ma td ts | no t | de t | add t k | rm t k *)
-let run_track (line : string) : string =
+let run_track line =
   let toks = Array.of_list (List.filter (fun s -> s <> "") (String.split_on_char ' ' line)) in
   let pos = ref 0 in
   let next () = if !pos >= Array.length toks then raise (Parse "eof") else (let t = toks.(!pos) in incr pos; t) in
@@ -69,7 +69,7 @@ let run_track (line : string) : string =
 
 (* ---------------------------------------------------------------------------------------- *)
 (* signal programs, see harness/FORMAT.md *)
-let parse_sig (line : string) : program =
+let parse_sig line : program =
   let toks = Array.of_list (List.filter (fun s -> s <> "") (String.split_on_char ' ' line)) in
   let pos = ref 0 in
   let peek () = if !pos >= Array.length toks then "" else toks.(!pos) in
@@ -195,7 +195,7 @@ let err_name = function
   | ErrUAF -> "UAF" | ErrDangling -> "DANGLING" | ErrDoubleErase -> "DOUBLE-ERASE"
   | ErrLoop -> "LOOP" | ErrFuel -> "FUEL" | ErrUnsupported -> "UNSUPPORTED"
 
-let run_sig (fuel : int) (line : string) : string =
+let run_sig (fuel : int) line =
   let p = parse_sig line in
   match run_program (nat_of_int fuel) p with
   | Ok st ->
@@ -204,6 +204,70 @@ let run_sig (fuel : int) (line : string) : string =
       Buffer.add_string b (Printf.sprintf "| leaked=%d" (int_of_n st.leaked));
       Buffer.contents b
   | Err e -> "ERR " ^ err_name e
+
+
+(* ---------------------------------------------------------------------------------------- *)
+(* functor expressions (AdaptorModel):  <K> <nargs> <v1> ... | <term>   (prefix notation) *)
+let rec z_of_int (i : int) : z = if i = 0 then Z0 else if i > 0 then Zpos (pos_of_int i) else Zneg (pos_of_int (- i))
+let int_of_z = function Z0 -> 0 | Zpos p -> int_of_pos p | Zneg p -> - (int_of_pos p)
+
+let run_expr line =
+  let toks = Array.of_list (List.filter (fun s -> s <> "") (String.split_on_char ' ' line)) in
+  let pos = ref 0 in
+  let next () = if !pos >= Array.length toks then raise (Parse "eof") else (let t = toks.(!pos) in incr pos; t) in
+  let nexti () = int_of_string (next ()) in
+  let k = nexti () in
+  let nargs = nexti () in
+  let vals = List.init nargs (fun _ -> nexti ()) in
+  if next () <> "|" then raise (Parse "expected |");
+  let parse_bound () =
+    let t = next () in
+    let v = int_of_string (String.sub t 1 (String.length t - 1)) in
+    match t.[0] with
+    | 'v' -> BVal (z_of_int v) | 'r' -> BRef (n_of_int v) | 'c' -> BCRef (n_of_int v)
+    | _ -> raise (Parse ("bound " ^ t)) in
+  let rec term () : fexpr =
+    match next () with
+    | "leaf" -> let id = nexti () in let th = nexti () in FLeaf (n_of_int id, th <> 0)
+    | "mem" ->
+        let t = nexti () in let id = nexti () in let cnt = nexti () in
+        let kinds = List.init cnt (fun _ -> match next () with "v" -> PVal | "r" -> PRef | "c" -> PCRef | x -> raise (Parse ("kind " ^ x))) in
+        FMem (n_of_int t, n_of_int id, kinds)
+    | "bind" ->
+        let loc = nexti () in let nb = nexti () in
+        let bs = List.init nb (fun _ -> parse_bound ()) in
+        let f = term () in
+        FBind ((if loc < 0 then None else Some (nat_of_int loc)), f, bs)
+    | "hide" -> let loc = nexti () in let f = term () in FHide ((if loc < 0 then None else Some (nat_of_int loc)), f)
+    | "retype" -> let f = term () in FRetype f
+    | "rr" -> let f = term () in FRetypeReturn f
+    | "hr" -> let f = term () in FHideReturn f
+    | "br" -> let b = parse_bound () in let f = term () in FBindReturn (f, b)
+    | "c1" -> let s = term () in let g = term () in FCompose1 (s, g)
+    | "c2" -> let s = term () in let g1 = term () in let g2 = term () in FCompose2 (s, g1, g2)
+    | "ec" -> let c = nexti () in let f = term () in FExcCatch (f, n_of_int c)
+    | "to" -> let cnt = nexti () in let ts = List.init cnt (fun _ -> n_of_int (nexti ())) in let f = term () in FTrackObj (f, ts)
+    | "slot" -> let f = term () in FSlot f
+    | t -> raise (Parse ("term " ^ t)) in
+  let e = term () in
+  let args = List.mapi (fun i v -> { a_v = z_of_int v; a_id = IOrig (nat_of_int i) }) vals in
+  let vis = List.map int_of_n (visited gen_visit_table e) in
+  let rf = List.map int_of_n (refs e) in
+  let counts l = String.concat "," (List.init k (fun t -> Printf.sprintf "%d=%d" t (List.length (List.filter (fun x -> x = t) l)))) in
+  let inval l = String.concat "," (List.map string_of_int (List.filter (fun t -> List.mem t l) (List.init k (fun t -> t)))) in
+  let rec nat_to_int = function O -> 0 | S m -> 1 + nat_to_int m in
+  let show_ident = function IOrig m -> "o" ^ string_of_int (nat_to_int m) | IBoundRef t -> "b" ^ string_of_int (int_of_n t) | ICopy -> "c" in
+  let show_log l = String.concat "" (List.map (fun (id, a) ->
+      Printf.sprintf "%d(%s)" (int_of_n id) (String.concat "," (List.map (fun x -> Printf.sprintf "%d:%s" (int_of_z x.a_v) (show_ident x.a_id)) a))) l) in
+  let show_res = function RInt v -> string_of_int (int_of_z v) | RVoid -> "void" | RThrow -> "throw" in
+  let show_c = function COk (l, r) -> show_log l ^ ";" ^ show_res r | CIllFormed -> "ILLFORMED" in
+  let (dl, dr) = call_doc e args in
+  Printf.sprintf "wt=%b regs=[%s] inval=[%s] docregs=[%s] direct=%s slot=%s doc=%s"
+    (wt e (nat_of_int nargs) && wf_values e)
+    (counts vis) (inval vis) (counts rf)
+    (show_c (call gen_hop_modes gen_slices e true args))
+    (show_c (call gen_hop_modes gen_slices (FSlot e) true args))
+    (show_log dl ^ ";" ^ show_res dr)
 
 let () =
   let mode = if Array.length Sys.argv > 1 then Sys.argv.(1) else "sig" in
@@ -214,6 +278,7 @@ let () =
       let out =
         try (match mode with
             | "track" -> run_track line
+            | "expr" -> run_expr line
             | _ -> run_sig fuel line)
         with Parse m -> "PARSE-ERROR " ^ m
            | Failure m -> "PARSE-ERROR " ^ m
